@@ -108,6 +108,7 @@ def _ops_tensor(depth):
         "merge-relative": lambda T: T.mergeRanks(coord_style="relative"),
         "flatten-unflatten": lambda T: T.flattenRanks().unflattenRanks(),
         "unflatten-of-flat": lambda T: _unflat_only(T),
+        "fiber-unflatten-of-flat": lambda T: _funflat_only(T),
         # second transform of an already transformed operand (its rank ids / shapes are lists and tuples)
         "flatten-of-flat": lambda T: _second(T, lambda F: F.flattenRanks()),
         "merge-of-flat": lambda T: _second(T, lambda F: F.mergeRanks(coord_style="absolute")),
@@ -154,6 +155,15 @@ def _unflat_only(T):
     return h
 
 
+def _funflat_only(T):
+    """Fiber.unflattenRanks as the operation under test: its operand is a flattened (unowned) fiber."""
+    h = _Holder()
+    h.operand = T.getRoot().flattenRanks()
+    h.before = snap(h.operand)
+    h.result = h.operand.unflattenRanks()
+    return h
+
+
 def _second(T, op, first=None):
     """`op` applied to an already transformed tensor F = first(T) (default: flatten)."""
     F = first(T) if first else T.flattenRanks()
@@ -165,7 +175,8 @@ def _second(T, op, first=None):
 
 
 NEEDS_CONTENT = ("fiber-swap", "fiber-flatten", "fiber-merge", "swap", "flatten", "flatten-linear", "flatten-pair",
-                 "merge-absolute", "merge-relative", "flatten-unflatten", "unflatten-of-flat", "flatten-of-flat",
+                 "merge-absolute", "merge-relative", "flatten-unflatten", "unflatten-of-flat", "fiber-unflatten-of-flat",
+                 "flatten-of-flat",
                  "merge-of-flat", "swizzle-of-flat", "flatten-of-split") + (
     "flatten-d1", "flatten-d1-linear", "merge-d1-absolute", "merge-d1-relative", "swap-d1", "fiber-flatten-d1",
     "fiber-merge-d1", "fiber-swap-d1")
